@@ -434,11 +434,41 @@ def run_equivalence(prop, tier, backend_runs, pops, per_pop, profiles=("release"
                             % (",".join(pops), "/".join(profiles)))
     if prop == "C01" and not os.environ.get("VERIF_CASES"):
         ir_cross_check(rep, bins, prop, judged, 400 if tier == "quick" else 6000)
+    if prop == "C03" and not os.environ.get("VERIF_CASES"):
+        selector_coverage(rep, bins["release"], cases, 3000 if tier == "quick" else 40000)
     if prop in ("C02", "C03") and not os.environ.get("VERIF_CASES"):
         bytecode_cross_check(rep, bins, prop, "bcint" if prop == "C02" else "jit", judged,
                              400 if tier == "quick" else 6000)
     settle(rep, prop, bins, judged)
     return rep.finish()
+
+
+def selector_coverage(rep, hv, cases, limit):
+    """Which operand-kind combinations of the JIT's instruction selector the population reaches
+    (instruction x register / stack temporary / memory / small / large immediate), read from the
+    bytecode the JIT holds (hook H1).  Coverage information only."""
+    from .props_static import form
+    rng = random.Random(seed() + 23)
+    pick = list(cases)
+    rng.shuffle(pick)
+    # the populations built for the selector first
+    pick.sort(key=lambda c: 0 if c["pop"] in ("N", "L", "I", "G") else 1)
+    pick = pick[:limit]
+    reqs = [{"op": "dumpbc", "id": str(k), "prog": c["prog"], "w": c["w"], "level": 1 + k % 3, "backend": "jit"}
+            for k, c in enumerate(pick)]
+    forms = {}
+    for a in pool.simple_requests(hv, reqs, timeout=120.0):
+        for ins in (a or {}).get("insts", []):
+            f = form(ins, 11)
+            forms[f] = forms.get(f, 0) + 1
+    stack = {f: n for f, n in forms.items() if ",s" in f or ":s" in f}
+    large = {f: n for f, n in forms.items() if "I" in f.split(":")[1]}
+    rep.coverage["jit_selector_forms"] = {
+        "programs_dumped": len(reqs), "distinct_forms": len(forms),
+        "forms_with_a_stack_temporary": len(stack), "forms_with_an_immediate_beyond_32_bits": len(large),
+        "most_frequent": dict(sorted(forms.items(), key=lambda kv: -kv[1])[:25]),
+        "stack_temporary_forms": dict(sorted(stack.items(), key=lambda kv: -kv[1])[:40]),
+        "large_immediate_forms": dict(sorted(large.items(), key=lambda kv: -kv[1])[:20])}
 
 
 def design_check_bf(rep, tier):
